@@ -489,6 +489,8 @@ def _e3_items(ctx, scale=1):
     for k in range(ABSORBED_CASES[ctx.tier] * scale):
         for flavour in ("restart", "watch"):
             items.append({"seed": base + 60000 + k, "flavour": flavour, "kind": "absorbed", "njob": 1 + k % 2})
+    # directed: a skip check that is overtaken (an input record replaced by an identical one while the step is CHECKING)
+    items.append({"seed": base + 80000, "flavour": "restart", "kind": "overtaken", "variant": "declarer"})
     return items
 
 
@@ -500,6 +502,14 @@ def _report_e3(ctx, item, rep, minimise=True):
             continue
         seen.add(sig)
         wit_item, wit_rep = item, rep
+        if item.get("kind") == "overtaken":
+            ctx.add_failure("oracle", "E3:" + sig.split(":")[1], sig,
+                            f"seed {item['seed']} (overtaken skip check, {rep.get('variant')}): {f['detail'][:600]}",
+                            witness={"item": dict(item), "project": rep["project"], "history": [],
+                                     "cone_edits": rep.get("cone_edits"), "cone_schedule": None,
+                                     "forced_interleaving": rep.get("cone_log", {}).get("reached"),
+                                     "failure": {k: v for k, v in f.items() if k != "detail"}})
+            continue
         if item.get("kind") == "env_multi":
             f2 = f
             witness = {"item": dict(item, project=rep["project"], envs=rep["envs"]),
@@ -546,6 +556,9 @@ def _run_e3(ctx, items):
                     ctx.case(("e3", item["seed"], item["flavour"], k, j), nontrivial=True)
         if item.get("kind") == "env_multi":
             ctx.count("e3:env_multi_cases")
+        if item.get("kind") == "overtaken":
+            ctx.count("e3:overtaken_cases")
+            ctx.case(("e3overtaken", item["seed"]), nontrivial=any("reached=True" in k for k in rep["stats"]))
         if item.get("kind") == "absorbed":
             ctx.count("e3:absorbed_cases")
             if rep.get("engine_term"):
@@ -681,7 +694,7 @@ def replay(ctx, obj):
     w = obj["failure"].get("witness") or {}
     if "item" in w:
         item = dict(w["item"])
-        if item.get("kind") != "env_multi":
+        if item.get("kind") not in ("env_multi", "overtaken"):
             item.setdefault("project", w.get("project"))
             item.setdefault("history", w.get("history"))
         if w.get("cone_edits") is not None:
